@@ -35,7 +35,8 @@ func init() {
 			"(R3) connect generates a fresh session, puts its hash into the Register message, signs SigHash() with the client key and assigns the signature before serialising; generateSession derives the server session key from the configured server key and the fresh hash; " +
 			"(R4) messages are serialised to the connection only by connect, sendDirect and sendMessages; sendDirect is called only by Ready and by sendMessage behind IsHandshakeType()==true; both writes in sendMessages are behind the receive from the handshake-complete channel; " +
 			"(R5) IsHandshakeType is exactly {Register, Ready, all Subscribe*/Unsubscribe*}; " +
-			"(R6) a nil result is sent on a message's response channel only after that message's Serialize returned nil.",
+			"(R6) a nil result is sent on a message's response channel only after that message's Serialize returned nil; " +
+			"(R7) every connection creates its own handshake-complete channel, which is the one its send loop waits on and the one published for Ready()/accept.",
 		NotDecided:  "cryptographic soundness (dependency); behaviour over all connection drop points, including the shutdown wake-up of sendMessages (a schedule property).",
 		Assumptions: []string{"bitcoin.Signature.Verify and PublicKey.Equal are correct"},
 		Tech:        "guard edge cut-sets, sig-hash/serialize grammar comparison, who-may-write-to-connection, table comparison over constants",
@@ -234,6 +235,17 @@ func runC17(c *Check) {
 				"nextMessageID is set before the ready message is written", "the ready message is written before nextMessageID is set: the server's first message can be compared with the old id and discarded")
 		}
 		c.Min("R5", "sendDirect calls in Ready", len(sends), 1)
+		// no write of the id after the ready message was (attempted to be) sent: it would race with the receive side
+		for _, s := range sends {
+			bad := false
+			for _, x := range st {
+				if canFollow(s.Instr, x) {
+					bad = true
+				}
+			}
+			c.Decide(!bad, "R5", "client.(*RemoteClient).Ready#id-not-written-after-send", s.Pos(), "event-order", nil,
+				"Ready does not touch nextMessageID after the ready message was handed to the connection", "Ready writes nextMessageID after the send: it overwrites the increments made for notifications that were delivered meanwhile, so the reported id is no longer last delivered + 1")
+		}
 	}
 }
 
@@ -550,6 +562,8 @@ func runC18(c *Check) {
 		}
 		c.Min("R6", "success reports in sendMessages", nS, 2)
 	}
+
+	c.ruleFreshHandshakeChannel("R7")
 
 	// ---- R5 IsHandshakeType table
 	if fd := findFuncDecl(p, "", "IsHandshakeType"); fd != nil {
